@@ -4,9 +4,10 @@
    C10_roundtrip_delegated). The cross-party flow (update_delegated_targets) has its acceptance
    condition proved (C10_incoming_checked); its composition with sign is covered by the
    correspondence check only. *)
-From ToughV Require Export Model.Base Model.Pct Model.Sig Model.Glob Model.Deleg Model.Client Model.EditorRT.
-From ToughV Require Import Proofs.SigP Proofs.EditorRTP Proofs.EditorTreeP.
+From ToughV Require Export Model.Base Model.Pct Model.Sig Model.Glob Model.Deleg Model.Client Model.EditorRT Model.EdOps.
+From ToughV Require Import Proofs.SigP Proofs.EditorRTP Proofs.EditorTreeP Proofs.EdOpsP.
 Export EditorTreeP.
+Export EdOpsP.
 From Coq Require Import ZifyBool Lia.
 
 (* editor o client = identity: if the editor's sign step succeeds, a client holding the same root
@@ -218,3 +219,77 @@ Example C10_delegated_example : forall cs,
     /\ map fst (sn_meta sn) = [name_targets; [65; 46; 106; 115; 111; 110]; [67; 46; 106; 115; 111; 110]; [66; 46; 106; 115; 111; 110]]
     /\ ed_sign_tree x_len x_len (x_root cs) x_edit [4; 5; 6; 7; 8; 9] [x_A; x_B [9; 2]] [1; 2; 3; 20] = None.
 Proof. exact tree_example. Qed.
+
+
+(* ---------------------------------------------------------------------------------------------- *)
+(* editing programs (Model/EdOps.v: the operations of RepositoryEditor / TargetsEditor as a state machine) *)
+
+(* any program of editing operations - refused calls included, they change nothing - whose final sign
+   succeeds with the top-level role under edit: the client loads exactly what sign built. The premises
+   about role names are premises about the delegate_role calls of the program; pairwise distinctness
+   is checked by sign itself. *)
+Theorem C10_program_roundtrip : forall (len_of dig_of : content -> N) (r : root) (ops : list edop) (keys : list N)
+    (cfg : config) (now : Z) tg sn ts srv ss,
+  ed_at_sign (fst (ed_run r red_new ops)) keys = Some ss ->
+  ed_program_sign len_of dig_of r ops keys = Some (tg, sn, ts, srv) ->
+  root_verify r 0 (r_sigs r) = true ->
+  (forall k, In k keys -> memN k (r_keys r) = true) ->
+  Forall small (ops_names ops) ->
+  (r_cs r = false -> ~ In (next_root_role r) (ops_names ops)) ->
+  r_version r < update_limit fixed (r_version r) (c_max_root_updates cfg) ->
+  (tree_depth (ss_children ss) <= c_fuel cfg)%nat ->
+  len_of (CTs ts) <= c_max_timestamp_size cfg ->
+  (now <= r_expires r)%Z -> (now <= e_tsexp (ss_edit ss))%Z -> (now <= e_sexp (ss_edit ss))%Z -> (now <= e_texp (ss_edit ss))%Z ->
+  exists w,
+    run_cycle fixed {| cy_cfg := cfg; cy_shipped := CRoot r; cy_srv := srv; cy_now := now; cy_fault := None |} store0
+    = (Ok {| rp_root := r; rp_ts := ts; rp_snap := sn; rp_targets := tg |}, w).
+Proof. exact program_roundtrip. Qed.
+Print Assumptions C10_program_roundtrip.
+
+(* the two maps of a TargetsEditor (targets the role had, targets added since) behave as one map:
+   add = insert, remove = delete, clear = empty; every other operation that stays on the role leaves
+   the targets, the role's name, its key holder and the signed tree alone *)
+Theorem C10_edit_refines_map : forall r st te o st',
+  rd_te st = Some te -> te_ok te -> stays o = true -> ed_step r st o = Some st' ->
+  exists te', rd_te st' = Some te' /\ te_ok te'
+              /\ te_name te' = te_name te /\ te_holder te' = te_holder te
+              /\ te_children te' = te_children te
+              /\ rd_top st' = rd_top st
+              /\ forall n, te_lookup te' n = spec_targets_step o (te_lookup te) n.
+Proof. exact step_stays. Qed.
+Print Assumptions C10_edit_refines_map.
+
+(* what the client finds in the top-level role after program [pre ++ seg] (seg: operations on the
+   top-level role, which [pre] left under edit) is the abstract map after seg *)
+Theorem C10_program_targets_seen : forall (len_of dig_of : content -> N) r pre seg keys te0 tg sn ts srv,
+  rd_te (fst (ed_run r red_new pre)) = Some te0 ->
+  forallb stays seg = true ->
+  ed_program_sign len_of dig_of r (pre ++ seg) keys = Some (tg, sn, ts, srv) ->
+  forall n, lookup_target n (tg_entries tg) = spec_targets seg (te_lookup te0) n.
+Proof. exact program_targets_seen. Qed.
+Print Assumptions C10_program_targets_seen.
+
+Theorem C10_new_program_targets_seen : forall (len_of dig_of : content -> N) r seg keys tg sn ts srv,
+  forallb stays seg = true ->
+  ed_program_sign len_of dig_of r seg keys = Some (tg, sn, ts, srv) ->
+  forall n, lookup_target n (tg_entries tg) = spec_targets seg (fun _ => None) n.
+Proof. exact new_program_targets_seen. Qed.
+Print Assumptions C10_new_program_targets_seen.
+
+(* every role the editor holds at any point was created by a delegate_role call of the program *)
+Theorem C10_roles_come_from_program : forall r ops st,
+  incl (st_names (fst (ed_run r st ops))) (st_names st ++ ops_names ops).
+Proof. intros r ops st. exact (run_names r ops st). Qed.
+Print Assumptions C10_roles_come_from_program.
+
+(* non-vacuity: a 27-operation program (additions, a removal, an update, three delegations, three roles
+   edited and signed by their holders) is accepted call by call, signs, and is loaded back; with one
+   signature less on role B the final sign refuses *)
+Example C10_program_example : forall cs,
+  exists tg sn ts srv w,
+    ed_program_sign x_len x_len (x_root cs) (x_prog [9; 8; 2]) [1; 2; 3; 20] = Some (tg, sn, ts, srv)
+    /\ run_cycle fixed (x_cyc cs srv) store0 = (Ok {| rp_root := x_root cs; rp_ts := ts; rp_snap := sn; rp_targets := tg |}, w)
+    /\ map (fun ni => (tn_raw (fst ni), ti_len (snd ni))) (targets_iter tg) = [([116], 5); ([97; 47; 120], 1); ([98; 47; 122], 2)]
+    /\ snd (ed_run (x_root cs) red_new (x_prog [9; 8; 2])) = repeat true 27
+    /\ ed_program_sign x_len x_len (x_root cs) (x_prog [9; 2]) [1; 2; 3; 20] = None.
+Proof. exact program_example. Qed.
